@@ -194,7 +194,7 @@ def write_evidence(ctx, nviol):
         pass
     except FileNotFoundError:
         pass
-    path = os.path.join(env.VERIF, "evidence", ctx.prop + ".json")
+    path = os.path.join(os.environ.get("VERIF_EVIDENCE_DIR") or os.path.join(env.VERIF, "evidence"), ctx.prop + ".json")
     os.makedirs(os.path.dirname(path), exist_ok=True)
     with open(path, "w") as f:
         f.write(text + "\n")
@@ -206,7 +206,7 @@ def write_evidence(ctx, nviol):
 
 
 def write_replay(prop, v):
-    d = os.path.join(env.VERIF, "replays", prop)
+    d = os.path.join(os.environ.get("VERIF_REPLAY_DIR") or os.path.join(env.VERIF, "replays"), prop)
     os.makedirs(d, exist_ok=True)
     fp = jhash([v["key"], v["case"]])
     path = os.path.join(d, fp + ".json")
